@@ -1,5 +1,5 @@
 (* C01 - CTAP2 request decoding is faithful to the specification's parameter tables. *)
-From Ctap Require Import Base Schema Wire Utf8 Typed Procs Inst Tables ProcTables Finite CborItem WireP SkipP TypedP EntriesP FramingP C11P WellTyped SerP RoundTripP ObRequestSide ObOpTables ObEnvRt.
+From Ctap Require Import Base Schema Wire Utf8 Typed Procs Inst Tables ProcTables Finite CborItem WireP SkipP TypedP EntriesP FramingP C11P WellTyped SerP RoundTripP ObRequestSide ObOpTables ObEnvRt FnShapes Shapes ObShapeRequest.
 Local Open Scope string_scope.
 Local Open Scope Z_scope.
 
@@ -101,6 +101,11 @@ Example c01_ex_large_blobs :
               ("pin_uv_auth_param", VNone); ("pin_uv_auth_protocol", VNone)], []).
 Proof. vm_compute. reflexivity. Qed.
 
+(* tie to the source for the hand-modelled procedural code: the bodies of these functions, as regenerated from
+   /repo now, have the shape (literals, operators, calls, control flow, constants) the model was written against *)
+Theorem c01_modelled_functions_unchanged_request : shapes_hold fn_shapes shapes_request = true.
+Proof. exact generated_shapes_request. Qed.
+
 Eval vm_compute in "ASSUMPTIONS c01_indexed_map_faithful". Print Assumptions c01_indexed_map_faithful.
 Eval vm_compute in "ASSUMPTIONS c01_text_map_faithful". Print Assumptions c01_text_map_faithful.
 Eval vm_compute in "ASSUMPTIONS c01_generated_conforms". Print Assumptions c01_generated_conforms.
@@ -110,3 +115,4 @@ Eval vm_compute in "ASSUMPTIONS c01_decode_is_typed_decode". Print Assumptions c
 Eval vm_compute in "ASSUMPTIONS c01_request_faithful". Print Assumptions c01_request_faithful.
 Eval vm_compute in "ASSUMPTIONS c01_generated_request_faithful". Print Assumptions c01_generated_request_faithful.
 Eval vm_compute in "ASSUMPTIONS c01_spec_declarations_wellformed". Print Assumptions c01_spec_declarations_wellformed.
+Eval vm_compute in "ASSUMPTIONS c01_modelled_functions_unchanged_request". Print Assumptions c01_modelled_functions_unchanged_request.
